@@ -825,7 +825,8 @@ class Engine:
       if caught is None or 'Exception' in caught or 'BaseException' in caught:
         handled_all = True
       if h.name:
-        hs.vars[h.name] = V(self.dom.top(h), origin=('exc', h.name))
+        hs.vars[h.name] = V(self.dom.top(h), origin=('exc', h.name),
+                           ty='instance')
       hf = self.exec_block(h.body, [hs], func)
       normal = list(normal) + hf.normal
       f.returns.extend(hf.returns)
